@@ -16,6 +16,7 @@ import (
 	"github.com/Fantom-foundation/lachesis-base/inter/idx"
 	"github.com/Fantom-foundation/lachesis-base/inter/pos"
 	"github.com/Fantom-foundation/lachesis-base/kvdb"
+	"github.com/Fantom-foundation/lachesis-base/kvdb/memorydb"
 	"github.com/Fantom-foundation/lachesis-base/lachesis"
 	"github.com/Fantom-foundation/lachesis-base/utils/adapters"
 	"github.com/Fantom-foundation/lachesis-base/vecfc"
@@ -108,6 +109,10 @@ type Config struct {
 	Index vecfc.IndexConfig
 	// Seal decides, at the end of the block of (epoch, frame), the next epoch's validators (nil = no seal).
 	Seal func(epoch idx.Epoch, frame idx.Frame) *pos.Validators
+	// LibMemDB: the databases are the library's own memorydb (kvdb/memorydb = flushable over devnull) instead of the
+	// harness's map store.  Whatever the library's storage layers do to byte slices they are handed (copy or keep)
+	// then reaches the persistent state exactly as in a real deployment of those layers.
+	LibMemDB bool
 }
 
 func DefaultConfig() Config {
@@ -116,19 +121,30 @@ func DefaultConfig() Config {
 
 // Node is one consensus instance over harness-owned databases.
 type Node struct {
-	Cfg     Config
-	MainDB  *kv.Store
-	EpochDB map[idx.Epoch]*kv.Store
-	Store   *abft.Store
-	Index   *vecfc.Index
-	L       *abft.IndexedLachesis
-	Input   *eventStore
-	Blocks  []BlockObs
-	Crit    []string
+	Cfg      Config
+	MainDB   *kv.Store
+	EpochDB  map[idx.Epoch]*kv.Store
+	Store    *abft.Store
+	Index    *vecfc.Index
+	L        *abft.IndexedLachesis
+	Input    *eventStore
+	Blocks   []BlockObs
+	Crit     []string
+	LibMain  kvdb.Store               // with Cfg.LibMemDB
+	LibEpoch map[idx.Epoch]kvdb.Store // with Cfg.LibMemDB
 	// ApplyTwice records events handed to the application twice in an epoch etc. (filled by monitors)
 }
 
 func (n *Node) epochDB(e idx.Epoch) kvdb.Store {
+	if n.Cfg.LibMemDB {
+		if db, ok := n.LibEpoch[e]; ok {
+			return db
+		}
+		ep := e
+		db := memorydb.NewWithDrop(func() { delete(n.LibEpoch, ep) })
+		n.LibEpoch[e] = db
+		return db
+	}
 	db := n.EpochDB[e]
 	if db == nil {
 		db = kv.New()
@@ -143,7 +159,14 @@ func (n *Node) epochDB(e idx.Epoch) kvdb.Store {
 // open creates Store/Index/Lachesis objects over the node's databases and bootstraps.
 func (n *Node) open() error {
 	crit := func(err error) { panic(critPanic{err}) }
-	n.Store = abft.NewStore(n.MainDB, n.epochDB, crit, n.Cfg.Store)
+	var mainDB kvdb.Store = n.MainDB
+	if n.Cfg.LibMemDB {
+		if n.LibMain == nil {
+			n.LibMain, n.LibEpoch = memorydb.New(), map[idx.Epoch]kvdb.Store{}
+		}
+		mainDB = n.LibMain
+	}
+	n.Store = abft.NewStore(mainDB, n.epochDB, crit, n.Cfg.Store)
 	n.Index = vecfc.NewIndex(crit, n.Cfg.Index)
 	n.L = abft.NewIndexedLachesis(n.Store, n.Input, &adapters.VectorToDagIndexer{Index: n.Index}, crit, abft.LiteConfig())
 	return nil
@@ -190,6 +213,33 @@ func NewNode(cfg Config, epoch idx.Epoch, vals *pos.Validators) *Node {
 // Restart simulates a process restart: databases are copied as persisted, every in-memory object
 // (store caches, vector index, election) is rebuilt from them.
 func (n *Node) Restart() (*Node, error) {
+	if n.Cfg.LibMemDB {
+		m := &Node{Cfg: n.Cfg, MainDB: kv.New(), EpochDB: map[idx.Epoch]*kv.Store{}, Input: n.Input,
+			Blocks: append([]BlockObs{}, n.Blocks...), Crit: append([]string{}, n.Crit...),
+			LibMain: memorydb.New(), LibEpoch: map[idx.Epoch]kvdb.Store{}}
+		copyLib := func(dst, src kvdb.Store) {
+			it := src.NewIterator(nil, nil)
+			defer it.Release()
+			for it.Next() {
+				if err := dst.Put(append([]byte{}, it.Key()...), append([]byte{}, it.Value()...)); err != nil {
+					panic(err)
+				}
+			}
+		}
+		copyLib(m.LibMain, n.LibMain)
+		for e, db := range n.LibEpoch {
+			ep := e
+			c := memorydb.NewWithDrop(func() { delete(m.LibEpoch, ep) })
+			copyLib(c, db)
+			m.LibEpoch[e] = c
+		}
+		m.open()
+		var err error
+		if pv := catch(func() { err = m.bootstrap() }); pv != nil {
+			return m, fmt.Errorf("bootstrap panicked: %v", pv)
+		}
+		return m, err
+	}
 	m := &Node{Cfg: n.Cfg, MainDB: copyStore(n.MainDB), EpochDB: map[idx.Epoch]*kv.Store{}, Input: n.Input,
 		Blocks: append([]BlockObs{}, n.Blocks...), Crit: append([]string{}, n.Crit...)}
 	for e, db := range n.EpochDB {
